@@ -11,6 +11,7 @@ RULES = {   # property -> [(finding id, predicate over [construct, slot, kind, c
   ('F-20', lambda x: x[0] in ('lambda_at', 'lambda_at_pre', 'lambda_formals_set') and x[1] == 'a|}', 'function/definition.py: multi-line formals are given a trailing comma, which the installed grammar rejects; with a comment after the last formal the comma is not adjacent to the brace', 'a comment after the last formal of a lambda without an ellipsis (plain or @-pattern) yields multi-line formals with a trailing comma that the installed tree-sitter grammar rejects'),
  ],
  'C03': [
+  ('F-30', lambda x: x[0] == 'attrpath' and 'does not parse' in x[4], 'binding.py: a line comment inside an attrpath is re-emitted without the line break that ends it', 'a line comment between an attrpath segment and the following dot swallows the rest of the binding (the comment absorbs code; the output does not parse)'),
   ('F-40', lambda x: x[2] in ('two_b', 'b_then_eol_c', 'two_own_b'), 'trivia.py/function definition: a second comment on the line of a first one is re-attached (inline to the previous item) or replaces the first', 'two comments in one gap: the first is dropped (after a lambda colon) or the two swap places'),
   ('F-03', lambda x: x[0] in ('assert_list', 'assert_set', 'select_set', 'inherit_in_let', 'assert', 'assert_multi', 'inherit', 'inherit_multi', 'inherit_from', 'lambda_at', 'lambda_at_pre', 'select', 'select_or'), 'comments in the gaps of select paths, `or` defaults, @-patterns, `inherit` heads/tails and after `assert c;` are not captured by the readers (dropped) or are re-attached after the following token', 'a comment in one of the listed gaps is dropped or moves to the other side of a code token'),
  ],
